@@ -432,6 +432,20 @@ func (m c17) equalityLaws(c *Ctx, specs []*TypeSpec, state *ResSpec) {
 			t8.Attrs = append(append([]AttrSpec{}, t.Attrs...), AttrSpec{Name: "zz-extra-attr", Kind: KString})
 			pairs = append(pairs, pair{class: "field-count/rel", t1: *t, r1: clone(state), t2: t7, r2: clone(state)})
 			pairs = append(pairs, pair{class: "field-count/attr", t1: *t, r1: clone(state), t2: t8, r2: clone(state)})
+			// an attribute that is nullable on one side and plain on the other, holding "the same" number / text: the
+			// values differ (a pointer is not an int), whatever the pointee is
+			for _, k := range []int{KInt, KString, KBool, KUint8} {
+				ta, tb := *t, *t
+				ta.Attrs = append(append([]AttrSpec{}, t.Attrs...), AttrSpec{Name: "zz-np", Kind: k})
+				tb.Attrs = append(append([]AttrSpec{}, t.Attrs...), AttrSpec{Name: "zz-np", Kind: k, Null: true})
+				ra, rb := clone(state), clone(state)
+				v := differentVal(zeroVal(k, false))
+				ra.Attrs["zz-np"] = v
+				vn := v
+				vn.Null = true
+				rb.Attrs["zz-np"] = vn
+				pairs = append(pairs, pair{class: "value/nullable-vs-plain", t1: ta, r1: ra, t2: tb, r2: rb})
+			}
 			t9 := *t
 			t9.Rels = append(append([]RelSpec{}, t.Rels...), RelSpec{Name: "zz-extra-one", ToOne: true, ToType: "x"})
 			pairs = append(pairs, pair{class: "field-count/rel", t1: t9, r1: clone(state), t2: *t, r2: clone(state)})
